@@ -33,11 +33,21 @@ func (server *GripServer) Submit(ctx context.Context, query *gripql.GraphQuery) 
 	bufsize := 5000 //make this configurable?
 
 	res := pipeline.Start(context.Background(), pipe, man, bufsize, nil, nil)
+	//signal travelers belong to the mark/jump protocol, they are not results
+	results := make(chan gdbi.Traveler, bufsize)
+	go func() {
+		defer close(results)
+		for t := range res {
+			if !t.IsSignal() {
+				results <- t
+			}
+		}
+	}()
 	jobID, err := server.jStorage.Spool(query.Graph,
 		&jobstorage.Stream{
 			DataType:  dataType,
 			MarkTypes: markTypes,
-			Pipe:      res,
+			Pipe:      results,
 			Query:     query.Query,
 		})
 	return &gripql.QueryJob{
